@@ -333,6 +333,9 @@ func (w *World) Apply(ev string) (enabled bool, err error) {
 		if !ok {
 			txs, ok = w.CContent(p[1], w.Ledger())
 		}
+		if !ok && (p[1] == "pv" || p[1] == "pm") && len(p) >= 4 {
+			txs, ok = w.ParamContent(p, w.Ledger())
+		}
 		if !ok {
 			return false, nil
 		}
@@ -376,4 +379,42 @@ func (w *World) ReorgEnabled(ev string) bool {
 	k, _ := strconv.Atoi(p[1])
 	_, ok := w.reorgGens(k, p[2])
 	return ok
+}
+
+// ParamContent builds parametrised payments: "x.pv.<amount>.<addr>[.<role>]" pays <amount>
+// maxwell to address <addr> of wallet role (default A); "x.pm.<n>.<amount>" pays n outputs of
+// <amount> to A.a0 in ONE transaction (many small coins).
+func (w *World) ParamContent(p []string, l *Ledger) ([]*wire.MsgTx, bool) {
+	c := w.strangerCoin(l, nil)
+	if c == nil {
+		return nil, false
+	}
+	cb := w.strangerCoinbase(l.Height + 1)
+	switch p[1] {
+	case "pv":
+		amt, _ := strconv.ParseInt(p[2], 10, 64)
+		ai, _ := strconv.Atoi(p[3])
+		role := "A"
+		if len(p) > 4 {
+			role = p[4]
+		}
+		wl := w.Wallets[role]
+		if wl == nil || ai >= len(wl.Addrs) || amt <= 0 || amt >= c.Value-fee {
+			return nil, false
+		}
+		return []*wire.MsgTx{cb, spend([]*Coin{c}, out(amt, wl.Addrs[ai].Pk), out(c.Value-amt-fee, w.SPk))}, true
+	case "pm":
+		n, _ := strconv.Atoi(p[2])
+		amt, _ := strconv.ParseInt(p[3], 10, 64)
+		if n <= 0 || amt <= 0 || int64(n)*amt >= c.Value-fee {
+			return nil, false
+		}
+		var outs []*wire.TxOut
+		for i := 0; i < n; i++ {
+			outs = append(outs, out(amt, w.Wallets["A"].Addrs[0].Pk))
+		}
+		outs = append(outs, out(c.Value-int64(n)*amt-fee, w.SPk))
+		return []*wire.MsgTx{cb, spend([]*Coin{c}, outs...)}, true
+	}
+	return nil, false
 }
